@@ -287,9 +287,17 @@ func fpPos(sb *strings.Builder, p *position.Position, ptr bool) {
 	}
 }
 
-func fpTok(sb *strings.Builder, t *token.Token, ptr bool) {
+func fpTok(sb *strings.Builder, t *token.Token, ptr bool) { fpTokD(sb, t, ptr, 0) }
+
+func fpTokD(sb *strings.Builder, t *token.Token, ptr bool, depth int) {
 	if t == nil {
 		sb.WriteString("nil")
+		return
+	}
+	if depth > 3 {
+		// free-floating tokens never carry free-floating tokens of their own in a sound tree;
+		// a cycle (a token listed among its own free-floating tokens) must not hang the monitor
+		sb.WriteString("{FREE-FLOATING-NESTING-TOO-DEEP}")
 		return
 	}
 	fmt.Fprintf(sb, "{%d %q", int(t.ID), t.Value)
@@ -300,7 +308,7 @@ func fpTok(sb *strings.Builder, t *token.Token, ptr bool) {
 	if len(t.FreeFloating) > 0 {
 		sb.WriteString(" ff[")
 		for _, f := range t.FreeFloating {
-			fpTok(sb, f, ptr)
+			fpTokD(sb, f, ptr, depth+1)
 		}
 		sb.WriteString("]")
 	}
@@ -415,7 +423,12 @@ func posEq(p, q *position.Position) bool {
 	return *p == *q
 }
 
-func tokDiff(s, t *token.Token) string {
+func tokDiff(s, t *token.Token) string { return tokDiffD(s, t, 0) }
+
+func tokDiffD(s, t *token.Token, depth int) string {
+	if depth > 3 {
+		return "free-floating-nesting-too-deep"
+	}
 	switch {
 	case s == nil && t == nil:
 		return ""
@@ -431,7 +444,7 @@ func tokDiff(s, t *token.Token) string {
 		return "free-floating-count"
 	}
 	for i := range s.FreeFloating {
-		if d := tokDiff(s.FreeFloating[i], t.FreeFloating[i]); d != "" {
+		if d := tokDiffD(s.FreeFloating[i], t.FreeFloating[i], depth+1); d != "" {
 			return "free-floating-" + d
 		}
 	}
